@@ -80,12 +80,39 @@ def structural(e, others):
 
 
 def run(ctx):
-    ok = vf.build_harness(ctx); ok = vf.build_coq(ctx) and ok
+    ok = vf.build_harness(ctx, ('default', 'alt'), optional=('alt',)); ok = vf.build_coq(ctx) and ok
     vf.forbidden_scan(ctx); vf.proof_obligations(ctx)
     if ctx.tier == 'thorough': vf.coqchk(ctx, 'C07')
     if not ok: vf.finish(ctx)
     layout, lay = coq_layout(ctx)
-    p = subprocess.Popen([vf.harness_bin('mutd'), layout], stdin=subprocess.PIPE, stdout=subprocess.PIPE, text=True)
+    n = 0; hist = {}; muts = []
+    for cfg in ('default', 'alt'):
+        if cfg in ctx.unbuilt: continue
+        k, h, muts_cfg = campaign(ctx, cfg, layout)
+        n += k
+        for a, b in h.items(): hist[a] = hist.get(a, 0) + b
+        if cfg == 'default': muts = muts_cfg
+    # DEM layer: PKE ciphertexts and encrypted header metadata
+    import demcheck
+    demcheck.campaign(ctx, malleability_only=True)
+    ctx.evaluations += n; ctx.traces += n
+    ctx.hist.update(hist); ctx.nontrivial = set(ctx.hist)
+    ctx.samples = [f'{w}: {m.hex()[:80]}...' for w, m in muts[:2]] + [f'{w}: {m.hex()[:80]}...' for w, m in muts[-3:-2]]
+    ctx.rule = ('classic encapsulations with 1/2/3 targets and hybridized ones with 1/2 targets, mixed; every byte position (one bit flip, 0x00, 0xFF; all 8 bits in the thorough tier), every transposition / drop / duplication of '
+                'entries and traps, cross-encapsulation swaps of tag, traps and entries, flavour flag flip, truncation and extension; each mutant offered to two authorized keys and one unauthorized key, each time right after the '
+                'same instance opened the original with that key; the same (sub-sampled byte positions) on the alternative build (p-256 + ML-KEM-768); '
+                'plus byte mutations of PKE ciphertexts and encrypted metadata; distinct non-trivial = distinct (mutation class, outcome)')
+    ctx.trusted += ['harness/src/bin/mutd.rs (reference decapsulator = generic interpreter of the Coq layout table over SHA3 / Ristretto / ML-KEM from the crates the repo uses)', 'checks/c07.py (XEnc parser/builder, mutators)']
+    ctx.assumptions += ['hashes are idealised as injective functions on typed symbol lists (Section hypotheses H_inj, Jtag_inj); xor facts unmask_mask / unmask_mask_only; ML-KEM correctness and robustness',
+                        'reference decapsulator only in the default build (curve25519 + ML-KEM-512); on the alternative build the oracle is the property itself (no mutant may be opened)']
+    vf.finish(ctx)
+
+
+def campaign(ctx, cfg, layout):
+    global PT, CT
+    PT, CT = (32, 768) if cfg == 'default' else (33, 1088)
+    alt = cfg != 'default'
+    p = subprocess.Popen([vf.harness_bin('mutd', cfg), layout], stdin=subprocess.PIPE, stdout=subprocess.PIPE, text=True)
     p.stdin.write('GEN\n'); p.stdin.flush()
     encs = []; usks = []
     while True:
@@ -103,9 +130,9 @@ def run(ctx):
     for ei, (e, s) in enumerate(encs):
         for ui, u in enumerate(usks):
             im, rf = ask(e, u); n += 1
-            if im != rf: dis.append(('unmodified', ei, ui, im, rf))
+            if im != rf and not alt: dis.append(('unmodified', ei, ui, im, rf))
             if im.startswith('SOME') and im[5:] != s:
-                vf.violation(ctx, 'decapsulation of an unmodified encapsulation returned a secret different from the encapsulated one', {'enc_hex': e.hex(), 'usk_hex': u, 'impl': im, 'expected': s})
+                vf.violation(ctx, 'decapsulation of an unmodified encapsulation returned a secret different from the encapsulated one', {'config': cfg, 'enc_hex': e.hex(), 'usk_hex': u, 'impl': im, 'expected': s})
             auth[(ei, ui)] = im.startswith('SOME')
     parsed = [Enc(e) for e, _ in encs]
     for pe, (e, _) in zip(parsed, encs): assert pe.build() == e
@@ -117,6 +144,7 @@ def run(ctx):
         big = len(e) > 400
         for i in range(len(e)):
             if ctx.quick() and big and i > 200 and i % 9: continue
+            if alt and i > 60 and i % (23 if ctx.quick() else 3): continue
             vals = [e[i] ^ (1 << (i % 8))] + ([] if (ctx.quick() and big) else [0x00, 0xff]) + ([e[i] ^ (1 << b) for b in range(8)] if not ctx.quick() else [])
             for v in dict.fromkeys(vals):
                 if v != e[i]: muts.append(('byte %s' % ('in tag' if i < 16 else 'in traps' if i < 17 + PT * len(parsed[ei].c) else 'in entries'), e[:i] + bytes([v]) + e[i + 1:]))
@@ -130,38 +158,26 @@ def run(ctx):
                 # what the instance opened before (memo, cache, early-abort on the tag alone) is exercised as well
                 if ui in au:
                     im0, _ = ask(e, usks[ui]); n += 1
-                    if im0 != 'SOME:' + s: vf.violation(ctx, 'decapsulation of an unmodified encapsulation did not return the encapsulated secret', {'enc_hex': e.hex(), 'usk_hex': usks[ui], 'impl': im0, 'expected': s})
+                    if im0 != 'SOME:' + s: vf.violation(ctx, 'decapsulation of an unmodified encapsulation did not return the encapsulated secret', {'config': cfg, 'enc_hex': e.hex(), 'usk_hex': usks[ui], 'impl': im0, 'expected': s})
                 im, rf = ask(m, usks[ui]); n += 1
                 cls = im.split(':')[0]
                 hist[f'{what} -> {cls}'] = hist.get(f'{what} -> {cls}', 0) + 1
-                if im != rf and not (im == 'UNPARSABLE' or rf == 'UNPARSABLE'): dis.append((what, ei, ui, im, rf))
+                if im != rf and not alt and not (im == 'UNPARSABLE' or rf == 'UNPARSABLE'): dis.append((what, ei, ui, im, rf))
                 if cls == 'SOME' or cls == 'PANIC':
                     viol.append((what, ei, ui, m, im))
     p.stdin.close(); p.wait()
-    ctx.ob('correspondence', f'real decapsulation == model-driven reference decapsulator (hash layout from the Coq model, primitives from the same crates) on {n} (encapsulation, key) pairs',
+    if not alt: ctx.ob('correspondence', f'real decapsulation == model-driven reference decapsulator (hash layout from the Coq model, primitives from the same crates) on {n} (encapsulation, key) pairs',
            not dis, '' if not dis else f'{len(dis)} disagreements, first: {dis[0]}')
     if viol:
         what, ei, ui, m, im = viol[0]
-        vf.violation(ctx, f'modified encapsulation ({what}) was opened: {im[:40]}', {'mutation': what, 'original_enc_hex': encs[ei][0].hex(), 'mutated_enc_hex': m.hex(), 'usk_hex': usks[ui], 'impl': im, 'violations_total': len(viol)})
-    # DEM layer: PKE ciphertexts and encrypted header metadata
-    import demcheck
-    demcheck.campaign(ctx, malleability_only=True)
-    ctx.evaluations += n; ctx.traces += n
-    ctx.hist.update(hist); ctx.nontrivial = set(ctx.hist)
-    ctx.samples = [f'{w}: {m.hex()[:80]}...' for w, m in muts[:2]] + [f'{w}: {m.hex()[:80]}...' for w, m in muts[-3:-2]]
-    ctx.rule = ('classic encapsulations with 1/2/3 targets and hybridized ones with 1/2 targets, mixed; every byte position (one bit flip, 0x00, 0xFF; all 8 bits in the thorough tier), every transposition / drop / duplication of '
-                'entries and traps, cross-encapsulation swaps of tag, traps and entries, flavour flag flip, truncation and extension; each mutant offered to two authorized keys and one unauthorized key; '
-                'plus byte mutations of PKE ciphertexts and encrypted metadata; distinct non-trivial = distinct (mutation class, outcome)')
-    ctx.trusted += ['harness/src/bin/mutd.rs (reference decapsulator = generic interpreter of the Coq layout table over SHA3 / Ristretto / ML-KEM from the crates the repo uses)', 'checks/c07.py (XEnc parser/builder, mutators)']
-    ctx.assumptions += ['hashes are idealised as injective functions on typed symbol lists (Section hypotheses H_inj, Jtag_inj); xor facts unmask_mask / unmask_mask_only; ML-KEM correctness and robustness',
-                        'reference decapsulator only in the default build (curve25519 + ML-KEM-512)']
-    vf.finish(ctx)
+        vf.violation(ctx, f'modified encapsulation ({what}) was opened: {im[:40]}', {'config': cfg, 'mutation': what, 'original_enc_hex': encs[ei][0].hex(), 'mutated_enc_hex': m.hex(), 'usk_hex': usks[ui], 'impl': im, 'violations_total': len(viol)})
+    return n, hist, muts
 
 
 def replay(ctx, path):
     rep = json.load(open(path))
-    vf.build_harness(ctx); vf.build_coq(ctx)
+    vf.build_harness(ctx, (rep.get('config', 'default'),)); vf.build_coq(ctx)
     layout, _ = coq_layout(ctx)
-    r = subprocess.run([vf.harness_bin('mutd'), layout], input=f"TRY {rep['original_enc_hex']} {rep['usk_hex']}\nTRY {rep['mutated_enc_hex']} {rep['usk_hex']}\n", capture_output=True, text=True)
+    r = subprocess.run([vf.harness_bin('mutd', rep.get('config', 'default')), layout], input=f"TRY {rep['original_enc_hex']} {rep['usk_hex']}\nTRY {rep['mutated_enc_hex']} {rep['usk_hex']}\n", capture_output=True, text=True)
     print(r.stdout)      # first line: the original opened by the same instance; second line: the mutant
     return 1 if 'impl=SOME' in r.stdout.strip().split('\n')[-1] else 0
